@@ -19,13 +19,14 @@ EXTENDS Naturals, Sequences, FiniteSets, TLC
 RefKinds == {"none", "inline", "external_rel", "external_abs", "missing", "eisdir", "eacces", "bad_base64",
              "bad_json", "garbage_file", "index_inline", "index_external", "empty_url", "no_comma",
              "charset_inline", "block_comment", "two_comments", "huge", "empty_file", "comment_midfile",
-             "long_missing", "long_external", "first_after_code", "percent_missing"}   \* a reference with stray percent signs   \* ...; a reference after code on an earlier line AND a final one    \* references longer than 64 bytes with non-ASCII text around that offset
+             "long_missing", "long_external", "first_after_code", "percent_missing",
+             "dotdot_external"}      \* a relative reference with more `..` than the file name has folders   \* a reference with stray percent signs   \* ...; a reference after code on an earlier line AND a final one    \* references longer than 64 bytes with non-ASCII text around that offset
 Parents == {"default", "dirname", "none"}
 
 (* does the reference designate a readable, regular (non-index) version-3 map? *)
 Usable(ref, parent) ==
   CASE ref \in {"inline", "block_comment", "two_comments", "external_abs", "first_after_code"} -> "yes"   \* the LAST reference counts
-    [] ref \in {"external_rel", "long_external"} -> IF parent = "none" THEN "either" ELSE "yes"
+    [] ref \in {"external_rel", "long_external", "dotdot_external"} -> IF parent = "none" THEN "either" ELSE "yes"
     [] ref \in {"charset_inline", "comment_midfile", "huge"} -> "either"
     [] OTHER -> "no"    \* none, missing, unreadable, malformed, index maps, empty
 
